@@ -50,6 +50,47 @@ Theorem C13_absolute_bypass : forall fs st from p,
   find_import fs st from p = if exists_ fs p then Some p else None.
 Proof. exact absolute_bypass. Qed.
 
+(* a virtual source (-e "<cmdline>", stdin "<stdin>", --ext-code "<ext:v>", --tla-code
+   "<tla:x>": registered without a source_paths entry) has no importer directory: its
+   relative imports see the -J directories only — and with no -J at all nothing; its
+   ABSOLUTE imports still resolve by their own existence, with no base directory needed *)
+Theorem C13_virtual_bases_are_search_paths : forall st sid r,
+  nthN (s_sources st) sid = Some (r, false) -> bases st (Some sid) = s_search st.
+Proof. exact virtual_bases_are_search_paths. Qed.
+
+Theorem C13_absolute_bypass_virtual : forall fs st sid r p,
+  nthN (s_sources st) sid = Some (r, false) ->
+  s_search st = [] ->
+  is_absolute p = true ->
+  find_import fs st (Some sid) p = if exists_ fs p then Some p else None.
+Proof. exact absolute_bypass_virtual. Qed.
+
+Theorem C13_virtual_relative_needs_J : forall fs st sid r p,
+  nthN (s_sources st) sid = Some (r, false) ->
+  s_search st = [] ->
+  is_absolute p = false ->
+  find_import fs st (Some sid) p = None.
+Proof. exact virtual_relative_needs_J. Qed.
+
+Theorem C13_once_virtual : forall fs canon prog_of fuel jpaths repr data,
+  let st := fst (run_virtual fs canon prog_of fuel jpaths repr data) in
+  NoDup (loaded_cps st) /\ NoDup (evaled st).
+Proof. exact once_virtual. Qed.
+
+(* rsjsonnet -e with no -J: absolute imports deliver, std.thisFile is "<cmdline>", a relative
+   import of an existing ./x.libsonnet is NOT found; with -J . it is *)
+Example C13_nonvacuous_virtual :
+  let '(st, r) := ex_run_virtual [] ex_vprog in
+  nthN (s_sources st) 0 = Some (str_of "<cmdline>", false) /\ s_search st = [] /\
+  is_absolute (str_of "/R/a/d.txt") = true /\
+  r = Ok (VArr [VStr (str_of "<cmdline>"); VBytes [1; 2];
+                VArr [VStr (str_of "x"); VStr (str_of "/R/x.libsonnet")]]) /\
+  snd (ex_run_virtual [] ex_vprog_rel) =
+    Err (ImportFailed WNotFound (str_of "<cmdline>") 1 (str_of "x.libsonnet")) /\
+  snd (ex_run_virtual ["."] ex_vprog_rel) =
+    Ok (VArr [VStr (str_of "<cmdline>"); VArr [VStr (str_of "x"); VStr (str_of "./x.libsonnet")]]).
+Proof. vm_compute. repeat split. Qed.
+
 (* a second spelling of a loaded file is a cache hit: same thunk, nothing read,
    the session (sources, thunks, log) unchanged *)
 Theorem C13_cache_by_canonical : forall fs canon prog_of st p1 st1 sid p2,
@@ -197,6 +238,11 @@ Print Assumptions C13_search_none.
 Print Assumptions C13_importer_dir_first.
 Print Assumptions C13_rightmost_J_wins.
 Print Assumptions C13_absolute_bypass.
+Print Assumptions C13_virtual_bases_are_search_paths.
+Print Assumptions C13_absolute_bypass_virtual.
+Print Assumptions C13_virtual_relative_needs_J.
+Print Assumptions C13_once_virtual.
+Print Assumptions C13_nonvacuous_virtual.
 Print Assumptions C13_cache_by_canonical.
 Print Assumptions C13_loaded_once.
 Print Assumptions C13_evaluated_once.
